@@ -151,6 +151,52 @@ def r_cover_merge(F, R, cat=None):
     R.floor("R-COVER(merge_regions)", "pre-sizing obligations", n, 9)
 
 
+def r_cover_reserve_vec(F, R, cat=None):
+    """Vec<T> as a region / storage: reserve_regions reserves for the announced elements on every
+    path; a guard is only accepted when it compares against the *spare* capacity"""
+    from expr import facts_at, CMP_OPS
+    cat = cat or Catalogue(F)
+    n = 0
+    for b in F.bodies.values():
+        if b.kind != "AssocFn" or b.name != "reserve_regions" or b.self_adt != "std::vec::Vec":
+            continue
+        n += 1
+        R.saw(b)
+        ctx, effs = cat.effects(b)
+        res = [e for e in effs if e.cls == "reserve" and e.ctx is ctx and
+               any(r == ("arg", 1) and p == () for (c, (r, p)) in e.targets or ())]
+        if not res:
+            R.check("R-COVER(reserve_regions)", b.label(), False, construct="reserves the vector",
+                    where=b.where(), detail="no reserve call on self")
+            continue
+        sites = {e.bb for e in res}
+        if not b.can_return_avoiding(sites):
+            R.check("R-COVER(reserve_regions)", b.label(), True, construct="reserves the vector on every path",
+                    where=b.where())
+            continue
+        # conditional: look at the guard
+        verdict = None
+        from expr import lin, lin_sub, nobb
+        selfp = ("place", b.key, ("arg", 1), ())
+        cap = ("call", ("Vec", "capacity"), (selfp,), ())
+        ln = ("call", ("Vec", "len"), (selfp,), ())
+        for e in res:
+            for f in facts_at(ctx, e.bb):
+                if f[0] in CMP_OPS:
+                    d = lin_sub(lin(nobb(f[1])), lin(nobb(f[2])))
+                    if d.get(cap):
+                        # spare capacity = capacity - len: the two must appear with opposite signs
+                        verdict = bool(d.get(ln)) and (d[ln] == -d[cap])
+        if verdict is None:
+            R.undecided_site("R-COVER(reserve_regions)", b.label(), "conditional reserve with an unrecognised guard")
+        else:
+            R.check("R-COVER(reserve_regions)", b.label(), verdict,
+                    construct="reserve skipped only when the spare capacity suffices", where=b.where(),
+                    detail="the guard compares the announced amount with the total capacity, not with the spare capacity"
+                    if not verdict else "")
+    R.floor("R-COVER(reserve_regions)", "Vec reserve_regions bodies", n, 1)
+
+
 def r_cover_reserve(F, R, cat=None):
     cat = cat or Catalogue(F)
     n = 0
@@ -346,6 +392,9 @@ def r_noalloc(F, R, cat=None):
                 bad.append(("R-NOALLOC", e, "builds a temporary with %s::%s" % e.tag))
             if e.tag in EXACT_FIT:
                 bad.append(("R-AMORTISED", e, "%s::%s defeats amortised growth" % e.tag))
+            if e.tag in (("fn", "swap"), ("fn", "replace"), ("fn", "take")) and any(
+                    c is ctx and r == ("arg", 1) for (c, (r, p)) in e.targets or ()):
+                bad.append(("R-NOALLOC", e, "mem::%s replaces the storage (and discards a pre-sized buffer)" % e.tag[1]))
         for (rule, e, why) in bad:
             R.check(rule, b.label(), False, construct="%s::%s" % e.tag, where=e.where(), detail=why)
         if not bad:
